@@ -4,6 +4,7 @@ CONSTANTS
   MaxChanges = 2
   MaxFails = 1
   MaxOther = 1
+  MaxRefresh = 1
   RoundSize = 1
   MinB = 1
   MaxB = 2
